@@ -891,7 +891,9 @@ def origin(fn, op, depth=0):
     if 1 <= l <= fn.raw["nargs"]:
         return ("arg", l)
     ds = fn.defs().get(l, [])
-    if fn.local_name(l) and (len(ds) != 1):
+    if len(ds) > 1:
+        return ("multi", l)
+    if fn.local_name(l) and len(ds) == 0:
         return ("named", l)
     if len(ds) == 0:
         return ("unknown", l)
